@@ -172,6 +172,11 @@ def gen(rng, tier):
         for body in ("vec:x6162", "es:6162", "file:2:x6162"):
             cases.append(conn(200, "v13", [(name, "1")], body))
             cases.append(conn(200, "v13", [(name, "1"), (name.upper(), "2")], body))
+    # ---- the same faults while the READ side is not at a request boundary (a body is unread / the read side is shut
+    #      down after an unknown-length body): what a failed write does to the write side must not depend on it
+    for kind in ("connB", "connS"):
+        for f in FAULTY:
+            cases.append(kind + conn(*f)[4:])
     # ---- connection level with earlier traffic on the same connection
     for k in (0, 1, 2):
         pres = [[]] if k == 0 else ([[p] for p in EARLIER_2XX] if k == 1 else
@@ -233,7 +238,7 @@ def classify(c, model):
         if "0" in rest[0][2:].split(","): f.append("w0")
         if rest[2] == "0": f.append("flushfail")
         return "ser:%s:%s:%s" % (bk, m[0] if m else "?", "+".join(f) or "nofault")
-    tag = "conn" if kind == "conn" else "sess%s" % t[1]
+    tag = kind if kind.startswith("conn") else "sess%s" % t[1]
     return "%s:%s:%s/%s/%s" % (tag, bk, m[0] if m else "?", m[1] if len(m) > 1 else "?", m[2] if len(m) > 2 else "?")
 
 
